@@ -30,6 +30,7 @@ func runC03(c *Ctx) {
 	// reply and the requests pipelined behind it are dropped with the connection
 	ruleArgumentIndexSafety(c, "R03.h")
 	ruleStoreIndexSafety(c, "R03.h")
+	ruleHandlersAnswer(c, "R03.h")
 	ruleNilNilDeref(c, "R03.h")
 }
 
